@@ -285,16 +285,22 @@ func c35Run(in c35In) (V, Verdict) {
 		}
 	}
 	// units ending in 0x00 that the reader has to hand back whole: behind each
-	// the writer puts a 4-byte start code (or the stream ends)
+	// the writer puts a 4-byte start code (tz), or the stream ends (tz-last)
+	tzMid, tzLast := false, false
 	for i, e := range want {
 		if e.Unit[len(e.Unit)-1] == 0 {
 			if i == len(want)-1 {
-				class += "/tz-last"
+				tzLast = true
 			} else {
-				class += "/tz"
+				tzMid = true
 			}
-			break
 		}
+	}
+	if tzMid {
+		class += "/tz"
+	}
+	if tzLast {
+		class += "/tz-last"
 	}
 	if c35Same(got, c35Units(want)) {
 		return obs, Pass(class, kprop >= 0 && len(want) >= 2)
